@@ -222,7 +222,11 @@ pub fn pre_extra(prop: &str, w: &World, op: &Op, pre: &mut Pre) {
             };
             if let Some(root) = target {
                 let t = Tree::of_element(&root);
-                pre.extra = Some(PreExtra::Sort { canon: canon(&t, 0), root });
+                let conformed = match root.min_version() {
+                    Ok(version) => t.nodes.iter().all(|n| !matches!(crate::c07::children_conform(&n.elem, version), Err((class, _)) if class != "not-in-version")),
+                    Err(_) => false,
+                };
+                pre.extra = Some(PreExtra::Sort { canon: canon(&t, 0), root, conformed });
             }
         }
         "C10" => {
@@ -383,7 +387,7 @@ pub fn post_extra(ctx: &mut StepCtx, w: &World, op: &Op, pre: &Pre, out: &Outcom
             }
         }
         "C14" => {
-            if let Some(PreExtra::Sort { root, canon: before }) = &pre.extra {
+            if let Some(PreExtra::Sort { root, canon: before, conformed }) = &pre.extra {
                 ctx.seen.references += 1;
                 let t = Tree::of_element(root);
                 let after = canon(&t, 0);
@@ -396,6 +400,17 @@ pub fn post_extra(ctx: &mut StepCtx, w: &World, op: &Op, pre: &Pre, out: &Outcom
                 let text2 = root.serialize();
                 if text1 != text2 {
                     viols.push(mk("sort/not-idempotent", "", format!("sorting twice differs from sorting once: {}", first_diff(&text1, &text2))));
+                }
+                // the sorted elements are still in specification order for the version of their file
+                if let (Ok(version), true) = (root.min_version(), *conformed) {
+                    for n in &t.nodes {
+                        if let Err((class, why)) = crate::c07::children_conform(&n.elem, version) {
+                            if class != "not-in-version" {
+                                viols.push(mk("sort/result-does-not-conform-to-specification", class, format!("after sort: in {}: {why}", n.elem.xml_path())));
+                                break;
+                            }
+                        }
+                    }
                 }
                 for model in &w.models {
                     let tm = Tree::of_model(model);
